@@ -36,7 +36,7 @@ Example k_opt_unbounded_ex :
   let rec := [3; 5; 4; 1; 6; 2; 8; 0; 7] in
   is_tourb rec = true /\
   walk rec 0 9 = [0; 3; 1; 5; 2; 4; 6; 8; 7] /\
-  kopt_builder 5 rec [3; 5; 4; 8; 7] = Some [3; 5; 4; 8; 7; 3; 1; 2; 6; 0; 5; 4; 8; 7; 0] /\
-  walk (k_opt 5 rec [3; 5; 4; 8; 7; 3; 1; 2; 6; 0; 5; 4; 8; 7; 0]) 3 9 = [3; 5; 1; 4; 2; 8; 6; 7; 0] /\
-  is_tourb (k_opt 5 rec [3; 5; 4; 8; 7; 3; 1; 2; 6; 0; 5; 4; 8; 7; 0]) = true.
+  kopt_builder 5 rec [3; 5; 4; 8; 0] = Some [3; 5; 4; 8; 0; 3; 1; 2; 6; 7; 5; 4; 8; 0; 3] /\
+  walk (k_opt 5 rec [3; 5; 4; 8; 0; 3; 1; 2; 6; 7; 5; 4; 8; 0; 3]) 3 9 = [3; 5; 1; 4; 2; 8; 6; 0; 7] /\
+  is_tourb (k_opt 5 rec [3; 5; 4; 8; 0; 3; 1; 2; 6; 7; 5; 4; 8; 0; 3]) = true.
 Proof. vm_compute. repeat split; reflexivity. Qed.
